@@ -2,12 +2,13 @@
 //@ props C02 C03 C01
 //@ kind W
 //@ def quick NIN=5
-//@ def thorough NIN=7
-//@ cbmc all --unwind 11 --unwinding-assertions --arrays-uf-always
+//@ def thorough NIN=9
+//@ cbmc all --unwind 13 --unwinding-assertions --arrays-uf-always
 //@ timeout quick=600 thorough=1800
 //@ entry h_basicAttrValueScan
 //@ note W: complete for every character sequence of length <= NIN without '&' (entity and character references are out of this unit's scope: scanEntityRef is not extractable; its stub is an unreachable assert)
 //@ note single entity: the reader abstraction (contracts/scanner_stubs2.inc) has a constant reader number and never throws EndOfEntityException; the try/catch of the function is translated (R14), not removed; emitError message arguments and binToText formatting are not modelled
+//@ note a literal '<' is NOT rejected by the raw scan: it stays in the raw value and its rejection (BracketInAttrValue) is the obligation of the normaliser every raw value goes through (attnorm_*_raw / attnorm_*_value); the verdict asserted here is the raw scan's own (quotes, Char, surrogate pairs, termination)
 #define VERIF_DEFINE_GHOSTS
 #include "verif_prelude.h"
 //@ include scanner_stubs2.inc
